@@ -147,10 +147,10 @@ end
 
 /-- the round-trip check: Marshal succeeds, Unmarshal of its output with the same
 constraint succeeds, the result has an `Equals` type and the same payload -/
-def rtCheck (env : JEnv) (top : Bool) (v : Value) (t : Ty) : Bool :=
+def rtCheck (env : JEnv) (v : Value) (t : Ty) : Bool :=
   match marshal env v t with
   | .ok j =>
-    match unmarshal env top j t with
+    match unmarshal env j t with
     | .ok v' => Ty.equals v'.ty v.ty && sameP v'.v v.v
     | _ => false
   | _ => false
@@ -205,24 +205,26 @@ def rtHypsCore (env : JEnv) (v : Value) (t : Ty) : Bool :=
 
 /-! ### documents -/
 
-/-! the structural type of a document whose object keys are distinct, ascending and
-normalised: JSON null ↦ placeholder, array ↦ tuple, object ↦ object -/
+/-! the structural type of a document whose object keys have distinct normal forms in
+ascending order: JSON null ↦ placeholder, array ↦ tuple, object ↦ object over the
+normalised keys -/
 mutual
-def structTy : Json → Ty
+def structTy (norm : String → String) : Json → Ty
   | .null => .dyn
   | .bool _ => .bool
   | .num _ => .number
   | .str _ => .string
-  | .arr xs => .tuple (structTyL xs)
-  | .obj ks vs => .object ks (structTyL vs) (ks.map fun _ => false)
-def structTyL : List Json → List Ty
+  | .arr xs => .tuple (structTyL norm xs)
+  | .obj ks vs => .object (ks.map norm) (structTyL norm vs) (ks.map fun _ => false)
+def structTyL (norm : String → String) : List Json → List Ty
   | [] => []
-  | x :: xs => structTy x :: structTyL xs
+  | x :: xs => structTy norm x :: structTyL norm xs
 end
 
-/-! documents covered by `doc_roundtrip_partial`: object keys strictly ascending (hence
-no duplicates) and normalised, strings normalised, every number literal parses to a
-number that satisfies `NumOK` -/
+/-! documents covered by `doc_roundtrip_partial`: the NORMAL FORMS of the keys of every
+object are strictly ascending (hence no duplicates, also none after normalisation), every
+number literal parses to a number that satisfies `NumOK`.  Keys and strings need not be
+normalised. -/
 mutual
 def docOK (env : JEnv) : Json → Bool
   | .null => true
@@ -231,10 +233,9 @@ def docOK (env : JEnv) : Json → Bool
     match Num.parse512 l with
     | .ok n => numOK n
     | _ => false
-  | .str s => env.norm s == s
+  | .str _ => true
   | .arr xs => docOKL env xs
-  | .obj ks vs =>
-    Ty.strictAsc ks && (ks.all fun k => env.norm k == k) && ks.length == vs.length && docOKL env vs
+  | .obj ks vs => Ty.strictAsc (ks.map env.norm) && ks.length == vs.length && docOKL env vs
 def docOKL (env : JEnv) : List Json → Bool
   | [] => true
   | x :: xs => docOK env x && docOKL env xs
@@ -260,14 +261,34 @@ def jsonEquivL : List Json → List Json → Bool
   | _, _ => false
 end
 
+/-! `jsonNormEq norm d' d`: `d'` is `d` with every string and key replaced by its normal
+form, up to number spelling -/
+mutual
+def jsonNormEq (norm : String → String) : Json → Json → Bool
+  | .null, .null => true
+  | .bool a, .bool b => a == b
+  | .str a, .str b => a == norm b
+  | .num a, .num b =>
+    match Num.parse512 a, Num.parse512 b with
+    | .ok x, .ok y => Num.rawEqual x y
+    | _, _ => false
+  | .arr xs, .arr ys => jsonNormEqL norm xs ys
+  | .obj k1 xs, .obj k2 ys => k1 == k2.map norm && jsonNormEqL norm xs ys
+  | _, _ => false
+def jsonNormEqL (norm : String → String) : List Json → List Json → Bool
+  | [], [] => true
+  | x :: xs, y :: ys => jsonNormEq norm x y && jsonNormEqL norm xs ys
+  | _, _ => false
+end
+
 /-- the document check: implied type, decode with it, re-encode, compare -/
-def docCheck (env : JEnv) (top : Bool) (d : Json) : Bool :=
+def docCheck (env : JEnv) (d : Json) : Bool :=
   match impliedType env d with
   | .ok t =>
-    match unmarshal env top d t with
+    match unmarshal env d t with
     | .ok v =>
       match marshal env v t with
-      | .ok d' => jsonEquiv d' d
+      | .ok d' => jsonNormEq env.norm d' d
       | _ => false
     | _ => false
   | _ => false
@@ -337,10 +358,10 @@ end
 
 /-- the document check of the full statement: same document up to key order, number
 spelling and string normalisation -/
-def docCheckFull (env : JEnv) (top : Bool) (d : Json) : Bool :=
+def docCheckFull (env : JEnv) (d : Json) : Bool :=
   match impliedType env d with
   | .ok t =>
-    match unmarshal env top d t with
+    match unmarshal env d t with
     | .ok v =>
       match marshal env v t with
       | .ok d' => jsonEquiv (canon env d') (canon env d)
